@@ -28,7 +28,7 @@ fn is_status_byte(v: u8) -> bool {
 // @assumes hashlittle is an ideal hash (uninterpreted, injective on the recorded (message, seed) pairs in the 31 bits that survive `| 0x80000000`)
 // @catches hashed range shortened/shifted (e.g. 4..22 drops the status byte, 5..23 drops ekey[0]), guard compared partially or not at all, a field parsed from the wrong byte, status flips between defined values accepted
 #[kani::proof]
-#[kani::unwind(26)]
+#[kani::unwind(10)]
 #[kani::stub(cascette_crypto::jenkins::hashlittle, ideal::hashlittle_ideal31)]
 fn c07_update_entry_single_byte() {
     let ekey: [u8; 9] = kani::any();
@@ -63,7 +63,7 @@ fn c07_update_entry_single_byte() {
 // @assumes hashlittle is an ideal hash (31 surviving bits injective)
 // @catches (known finding) lossy parse before validation: the guard is checked over re-serialised fields, not over the bytes read
 #[kani::proof]
-#[kani::unwind(26)]
+#[kani::unwind(10)]
 #[kani::stub(cascette_crypto::jenkins::hashlittle, ideal::hashlittle_ideal31)]
 fn c07_update_entry_undefined_status_byte() {
     let ekey: [u8; 9] = kani::any();
@@ -90,7 +90,7 @@ fn c07_update_entry_undefined_status_byte() {
 macro_rules! update_page_load {
     ($name:ident, $n:expr, $k:expr) => {
         #[kani::proof]
-        #[kani::unwind(26)]
+        #[kani::unwind(10)]
         #[kani::stub(cascette_crypto::jenkins::hashlittle, ideal::hashlittle_ideal31)]
         fn $name() {
             const N: usize = $n;
@@ -120,19 +120,11 @@ macro_rules! update_page_load {
             // corrupt inside entry K only (positions concrete per byte so that the rest of the page
             // stays concrete for the loader's end-of-page scan)
             let mut eb = [0u8; UPDATE_ENTRY_SIZE];
-            let mut j = 0;
-            while j < UPDATE_ENTRY_SIZE {
-                eb[j] = bytes[K * UPDATE_ENTRY_SIZE + j];
-                j += 1;
-            }
+            eb.copy_from_slice(&bytes[K * UPDATE_ENTRY_SIZE..(K + 1) * UPDATE_ENTRY_SIZE]);
             kani::assume(v != eb[q]);
             kani::assume(q != 22 || is_status_byte(v));
             eb[q] = v;
-            let mut j = 0;
-            while j < UPDATE_ENTRY_SIZE {
-                bytes[K * UPDATE_ENTRY_SIZE + j] = eb[j];
-                j += 1;
-            }
+            bytes[K * UPDATE_ENTRY_SIZE..(K + 1) * UPDATE_ENTRY_SIZE].copy_from_slice(&eb);
             kani::cover!(q == 4, "first ekey byte corrupted");
             let loaded = UpdatePage::from_bytes(&bytes);
             if let Some(pg) = &loaded {
@@ -170,7 +162,7 @@ update_page_load!(c07_update_page_load_n2_k1, 2, 1);
 // @assumes hashlittle is an ideal hash
 // @catches `<` vs `<=` in the page-length check (short page read past its end or accepted)
 #[kani::proof]
-#[kani::unwind(26)]
+#[kani::unwind(10)]
 #[kani::stub(cascette_crypto::jenkins::hashlittle, ideal::hashlittle_ideal31)]
 fn c07_update_page_truncated() {
     let ekey: [u8; 9] = kani::any();
@@ -187,4 +179,50 @@ fn c07_update_page_truncated() {
     assert!(full.is_some(), "the untruncated page must load");
     std::mem::forget(full);
     std::mem::forget(page);
+}
+
+// ---- load path one level up: UpdateSection::from_bytes + search (what IndexManager::load_index and
+// lookup use) ---------------------------------------------------------------------------------------
+// @harness prop=C07 tier=quick timeout=900 role=update-section-load-path
+// @bounds section with one entry written by the real writer (UpdateSection::append / to_bytes, 60 pages), entry fields symbolic; one byte of the entry's location/size/status bytes 13..23 corrupted (symbolic position, status byte: defined values only), then UpdateSection::from_bytes and search(ekey)
+// @encodes cascette_client_storage::index::update::UpdateSection::from_bytes, cascette_client_storage::index::update::UpdateSection::to_bytes, cascette_client_storage::index::update::UpdateSection::append, cascette_client_storage::index::update::UpdateSection::search, cascette_client_storage::index::update::UpdatePage::from_bytes, cascette_client_storage::index::update::UpdateEntry::to_index_entry
+// @assumes hashlittle is an ideal hash (31 surviving bits injective)
+// @catches (known finding) a lookup through the loaded update section returns a corrupted archive location / size / status as if it were good
+#[kani::proof]
+#[kani::unwind(10)]
+#[kani::stub(cascette_crypto::jenkins::hashlittle, ideal::hashlittle_ideal31)]
+fn c07_update_section_load_search() {
+    let ekey: [u8; 9] = kani::any();
+    let id: u16 = kani::any();
+    kani::assume(id <= 1023);
+    let off: u32 = kani::any();
+    kani::assume(off < 1 << 30);
+    let size: u32 = kani::any();
+    let sk: u8 = kani::any();
+    kani::assume(sk < 4);
+    let q: usize = kani::any();
+    kani::assume(q >= 13 && q < 23);
+    let v: u8 = kani::any();
+    let mut sec = UpdateSection::new();
+    assert!(sec.append(UpdateEntry::new(ekey, ArchiveLocation { archive_id: id, archive_offset: off }, size, status_of(sk))));
+    let mut bytes = sec.to_bytes();
+    let mut eb = [0u8; UPDATE_ENTRY_SIZE];
+    eb.copy_from_slice(&bytes[..UPDATE_ENTRY_SIZE]);
+    kani::assume(v != eb[q]);
+    kani::assume(q != 22 || is_status_byte(v));
+    eb[q] = v;
+    bytes[..UPDATE_ENTRY_SIZE].copy_from_slice(&eb);
+    kani::cover!(q == 14, "packed offset byte corrupted");
+    let loaded = UpdateSection::from_bytes(&bytes);
+    if let Some(got) = loaded.search(&ekey) {
+        let ie = got.to_index_entry();
+        let same = ie.archive_id() == id && ie.archive_offset() == off && ie.size == size && got.status == status_of(sk);
+        assert!(
+            same,
+            "KF: lookup through UpdateSection::from_bytes returns an entry whose guarded bytes were corrupted (hash guard never checked on load)"
+        );
+    }
+    std::mem::forget(loaded);
+    std::mem::forget(bytes);
+    std::mem::forget(sec);
 }
